@@ -100,3 +100,21 @@ def enable_runs(prop, tier, specs):
                         bound=f"enable_features(['{key}']) at an arbitrary Inv-state: {n} node slots, array "
                               f"{'x'.join(map(str, shape))}"))
     return runs
+
+
+def base_runs(prop, tier, which):
+    from harness import step, step_replay
+
+    n = 4 if tier == "quick" else 5
+    runs = []
+    if "construct" in which:
+        runs.append(Run(f"construct:N={n}", step.construct_harness, dict(N=n, action="none"), step_replay.replay,
+                        ("constructed", "witness:division"),
+                        f"real SolutionTracks constructor on every forward binary forest with <= {n} nodes that "
+                        f"carries no ids (shape decided by solver forks, symbolic times)"))
+    if "query" in which:
+        runs.append(Run(f"query:N={n}", step.query_harness, dict(N=n, action="none"), step_replay.replay,
+                        ("neighbors", "has_track_at_time", "new_node_ids"),
+                        f"track queries and id issuing from an arbitrary Inv-state on {n} node slots; track id and "
+                        f"time arguments are unbounded integers"))
+    return runs
